@@ -203,7 +203,10 @@ def build_manager(name, config):
     return getattr(B, name)(**kw)
 
 
-def build_strategy(name, config):
+def build_strategy(name, config, bm_obj=None):
+    """bm_obj: an already constructed budget manager object to pass as
+    `budget_manager` (a caller re-using one manager object for several
+    strategy objects)."""
     import skactiveml.stream as S
     spec = STRATEGIES[name]
     kw = {k: _plain(v) for k, v in config.items() if k != "bm"}
@@ -211,7 +214,8 @@ def build_strategy(name, config):
     if bm is not None:
         if not spec["bm_arg"]:
             raise HarnessError(f"{name} takes no budget_manager")
-        kw["budget_manager"] = build_manager(bm["name"], bm["config"])
+        kw["budget_manager"] = (bm_obj if bm_obj is not None else
+                                build_manager(bm["name"], bm["config"]))
     return getattr(S, name)(**kw)
 
 
